@@ -122,8 +122,8 @@ pub fn streams() -> Vec<Box<dyn AnyStream>> {
         }),
         Box::new(Stream::<Case> {
             name: "roundtrip",
-            quick: 30_000,
-            thorough: 1_000_000,
+            quick: 40_000,
+            thorough: 4_000_000,
             source: Source::Gen(Box::new(strategy)),
             check: Box::new(check),
         }),
